@@ -233,9 +233,9 @@ func efGlobals(c *Ctx, a *flAgg) {
 			}
 			n++
 			key := funcKey(k.fn) + "/" + s.objName[hit]
-			if pn == "internal" {
-				// the CLI is a single-shot program: flag variables and the log output are process configuration
-				a.ok("EF-globals", "internal:"+key, "package internal is the command-line program (single call per process); listed for reference", k.pos)
+			if pn == "internal" && (strings.HasPrefix(funcKey(k.fn), "internal.Main") || strings.HasPrefix(funcKey(k.fn), "internal.init")) {
+				// Main runs once per process: flag variables and the log output are process configuration
+				a.ok("EF-globals", "internal:"+key, "Main is the command-line entry (one call per process); listed for reference", k.pos)
 				continue
 			}
 			bad[funcKey(k.fn)] = true
